@@ -261,8 +261,9 @@ impl LruManager {
         })?;
 
         // The MD5 only says the file is the one that was written: the list
-        // operations index `entries` with the stored links and follow `next`
-        // until the sentinel, so the links themselves have to be checked
+        // operations index `entries` with the stored links, follow `next`
+        // until the sentinel and splice through `prev`/`next`, so the links
+        // have to form a list before they are used
         if !links_are_valid(&header, &entries) {
             return Err(crate::StorageError::Cache(format!(
                 "invalid LRU file (broken list links): {}",
@@ -517,28 +518,33 @@ impl LruManager {
     }
 }
 
-/// Check the links of a loaded table: every head/tail/prev/next is the
-/// sentinel or an index into `entries`, and following `next` from the LRU
-/// tail reaches the sentinel (no cycle).
+/// Check that a loaded table is a doubly-linked list: following `next` from
+/// the LRU tail stays inside `entries`, every entry points back at the one
+/// before it, the walk ends at the MRU head, and every keyed entry is on it
+/// (`touch` and `remove` unlink a keyed entry through its own links).
 fn links_are_valid(header: &LruFileHeader, entries: &[LruFileEntry]) -> bool {
-    let in_range = |idx: u32| idx == LRU_SENTINEL || (idx as usize) < entries.len();
-
-    if !in_range(header.mru_head) || !in_range(header.lru_tail) {
-        return false;
-    }
-    if !entries.iter().all(|e| in_range(e.prev) && in_range(e.next)) {
-        return false;
-    }
-
-    // An acyclic chain visits each entry at most once
+    let mut on_list = vec![false; entries.len()];
+    let mut prev = LRU_SENTINEL;
     let mut idx = header.lru_tail;
-    for _ in 0..entries.len() {
-        if idx == LRU_SENTINEL {
-            return true;
+
+    while idx != LRU_SENTINEL {
+        let Some(entry) = entries.get(idx as usize) else {
+            return false;
+        };
+        // A second visit would be a cycle
+        if on_list[idx as usize] || entry.prev != prev {
+            return false;
         }
-        idx = entries[idx as usize].next;
+        on_list[idx as usize] = true;
+        prev = idx;
+        idx = entry.next;
     }
-    idx == LRU_SENTINEL
+
+    prev == header.mru_head
+        && entries
+            .iter()
+            .zip(&on_list)
+            .all(|(entry, &linked)| linked || !entry.is_active())
 }
 
 /// Statistics from a single LRU maintenance cycle.
